@@ -2,6 +2,7 @@ import RedactVerif.Props.L2
 import RedactVerif.Proofs.U.Top
 import RedactVerif.Props.FactsClassify
 import RedactVerif.Proofs.PrinterNI
+import RedactVerif.Props.FactsSkelPrinter
 /-
 C05 — exactly the unsafe arguments are enveloped; declared-safe data stays visible.
 
